@@ -56,27 +56,14 @@ Fixpoint no_dd (q : list N) : bool :=
   | _ => true
   end.
 
-(* REFUTED: the reduction lemma and the full law under [no_prop] alone.  q = x([(----[])|(]]) : for the scanner (and
-   for the regex crate: `--` is set difference and the bracket after it opens a nested class) the literal x and ONE
-   group holding one class; for the parser of RIO.Rx the class is  (..-  -..[  and ends at the first closing bracket,
-   so q is an alternation at top level.  An artefact of RIO.Rx (no set operators, no nested classes), not of the
-   library: regex 1.13.1 compiles ^q$ with the same structure as the scanner. *)
+(* The counterexample of the previous round, q = x([(----[])|(]]), is gone since RIO.Rx rejects the set operators it does
+   not implement: the pattern is no longer a valid regex for the model. *)
 Definition w3_ts : list tok := [TLit 120%N; TGrp [91;40;45;45;45;45;91;93;41;124;40;93;93]%N].
-Definition w3_s : list N := [122;122;93;93]%N.
-Lemma w3_facts : forallb tok_ok w3_ts = true /\ no_prop (render w3_ts) = true /\ rx_valid false (leaf_regex (render w3_ts)) = true
-  /\ forallb tok_parses w3_ts = false
-  /\ ML rx_is_match false (render w3_ts) w3_s = true /\ MN rx_is_match false (render (firstn 1 w3_ts)) w3_s = false
-  /\ no_dd (render w3_ts) = false.
-Proof. repeat split; vm_compute; reflexivity. Qed.
-Theorem reduction_lemma_no_prop_refuted :
-  ~ (forall ts, toks_ok ts -> no_prop (render ts) = true -> rx_valid false (leaf_regex (render ts)) = true -> forallb tok_parses ts = true).
-Proof. intros H. destruct w3_facts as (H1 & H2 & H3 & H4 & _). rewrite (H w3_ts H1 H2 H3) in H4. discriminate. Qed.
-Theorem full_law_no_prop_refuted :
-  ~ (forall ic ts k s, toks_ok ts -> no_prop (render ts) = true ->
-       ML rx_is_match ic (render ts) s = true -> MN rx_is_match ic (render (firstn k ts)) s = true).
-Proof. intros H. destruct w3_facts as (H1 & H2 & _ & _ & H5 & H6 & _). rewrite (H false w3_ts 1 w3_s H1 H2 H5) in H6. discriminate. Qed.
+Lemma old_witness_dd_gone : forallb tok_ok w3_ts = true /\ rx_valid false (leaf_regex (render w3_ts)) = false.
+Proof. split; vm_compute; reflexivity. Qed.
 
-(* CONJECTURE (open; bounded evidence below):
+(* PROVED since (RIO.RxAgree / RIO.RxFull, without any side condition); the bounded searches are kept as regression
+   evidence.  Former text of the conjecture:
      forall ic ts k s, toks_ok ts -> no_prop (render ts) = true -> no_dd (render ts) = true ->
        ML rx_is_match ic (render ts) s = true -> MN rx_is_match ic (render (firstn k ts)) s = true.
    By RIO.RxLaws.rx_prefix_law_toks and RIO.RxGi.toks_parse_forallb it is enough to prove
@@ -121,7 +108,7 @@ Example tokenize_sample :
   tokenize (render [TLit 47%N; TGrp [63;58;91;94;41;93;43]%N; TLit 40%N; TLit 120%N])
   = [TLit 47%N; TGrp [63;58;91;94;41;93;43]%N; TLit 40%N; TLit 120%N].
 Proof. vm_compute. reflexivity. Qed.
-Example artefact_detected : agree [40;92;80;123;41;120;40;125;41]%N = false.
+Example artefact_gone : agree [40;92;80;123;41;120;40;125;41]%N = true.
 Proof. vm_compute. reflexivity. Qed.
 Example earlier_witnesses_agree :
   agree [40;97;91;41;98;40;93;99;41]%N = true /\ agree [120;40;97;91;33;45;91;93;41;124;40;93;93;41]%N = true
